@@ -100,8 +100,10 @@ def main(argv=None):
         with open(args.replay) as f:
             rp = json.load(f)
         w = rp['world']['index']
-        out = spawn_world(prop, rp['verif_seed'], w, rp.get('tier', 'quick'), 'replay',
-                          ['--replay', os.path.abspath(args.replay)],
+        extra = ['--replay', os.path.abspath(args.replay)]
+        if rp.get('needs_prelude'):
+            extra += ['--prelude', str(rp.get('prelude_upto', -1))]
+        out = spawn_world(prop, rp['verif_seed'], w, rp.get('tier', 'quick'), 'replay', extra,
                           hashseed=rp['world'].get('hashseed'))
         res = out.get('replay', {})
         v = res.get('ok', {}).get('violation') if 'ok' in res else None
@@ -227,6 +229,23 @@ def main(argv=None):
                           hashseed=v['hashseed'])
         res = out.get('replay', {})
         rv = res.get('ok', {}).get('violation') if 'ok' in res else None
+        if not (rv and (rv.get('final_sig') or rv.get('sig')) == fs):
+            # second attempt: with the process history of the world that found it
+            try:
+                with open(v['replay']) as f:
+                    rp = json.load(f)
+            except Exception:
+                rp = {}
+            if rp.get('prelude_upto', -1) >= 0:
+                out = spawn_world(prop, seed, v['world'], tier, 'replay',
+                                  ['--replay', v['replay'], '--prelude', str(rp['prelude_upto'])], hashseed=v['hashseed'])
+                res = out.get('replay', {})
+                rv = res.get('ok', {}).get('violation') if 'ok' in res else None
+                if rv and (rv.get('final_sig') or rv.get('sig')) == fs:
+                    rp['needs_prelude'] = True
+                    with open(v['replay'], 'w') as f:
+                        json.dump(rp, f, indent=1, default=str)
+                    v['needs_prelude'] = True
         if rv and (rv.get('final_sig') or rv.get('sig')) == fs:
             confirmed.append(v)
         else:
@@ -241,7 +260,8 @@ def main(argv=None):
         print('KNOWN-FINDING: property=%s %s [signature=%s, hits=%d]' % (
             prop, known_by_sig[s].get('what_fails', ''), s, n))
     for v in confirmed:
-        print('violation: oracle=%s sig=%s world=%s run=%s ops %s->%s detail=%s' % (
+        print('violation:%s oracle=%s sig=%s world=%s run=%s ops %s->%s detail=%s' % (
+            ' [needs the process history of runs 0..N of its world, replayed as prelude]' if v.get('needs_prelude') else '',
             v.get('oracle'), v.get('final_sig') or v.get('sig'), v['world'], v['run'],
             v.get('orig_len'), v.get('min_len'), str(v.get('detail'))[:600]))
         print('VIOLATION property=%s replay=%s' % (prop, v['replay']))
